@@ -180,18 +180,23 @@ Section LfuBridge.
     unfold set_dl_cells, set_dc_val, with_cells. destruct (g_do_access _ n); simpl; auto.
   Qed.
 
-  Lemma mit_find_some (ix : list (K * nat)) k :
-    negb (mit_eqb (mit_find ix k) None) = match assoc k ix with Some _ => true | None => false end.
-  Proof. unfold mit_find. destruct (assoc k ix); reflexivity. Qed.
+  (* the lookup in the index, split on what it MEANS (assoc k (dl_index s)), not on how the source spells the test
+     against end(): both orientations of the generated `if` (negated or not, then/else swapped, the test kept in a
+     named local) reduce once the iterator is a constructor *)
+  Ltac found k s idx A :=
+    unfold mit_find, mit_second;
+    destruct (assoc k (dl_index s)) as [idx|] eqn:A; cbn [mit_eqb negb andb orb]; rewrite ?A; cbn [bind negb andb orb].
 
+  (* do_insert_update: the key is found or not, the operation it needs is allowed or not (a_upd / a_ins are pure bit
+     tests of `a`, so where and how often the source evaluates them does not matter): in each of the cases both sides
+     reduce, whether the source nests the tests or bails out first on the De Morgan negation *)
   Lemma g_do_insert_update_ok (s : lfdl K V) k v a now : req (g_do_insert_update s k v a) (dl_ins false s k v a now).
   Proof.
-    unfold g_do_insert_update, dl_ins. rewrite mit_find_some. unfold mit_find.
-    destruct (assoc k (dl_index s)) as [n|] eqn:A.
-    - destruct (a_upd a); [|simpl; auto].
-      callee (g_do_update_ok s k n v now A). unfold bind. crush; finish.
-    - destruct (a_ins a); [|simpl; auto].
-      callee (g_do_insert_ok s k v now A). unfold bind. crush; finish.
+    unfold g_do_insert_update, dl_ins. found k s n A.
+    - pose proof (g_do_update_ok s k n v now A) as P. unfold req in P. revert P.
+      destruct (a_upd a), (a_ins a); cbn [bind negb andb orb]; unfold bind; crush; finish.
+    - pose proof (g_do_insert_ok s k v now A) as P. unfold req in P. revert P.
+      destruct (a_upd a), (a_ins a); cbn [bind negb andb orb]; unfold bind; crush; finish.
   Qed.
 
   (* do_access (lfu) leaves the list alone *)
@@ -218,8 +223,7 @@ Section LfuBridge.
 
   Lemma g_do_find_ok (s : lfdl K V) k pk now : req (g_do_find s k pk) (dl_find false s k pk now).
   Proof.
-    unfold g_do_find, dl_find. rewrite mit_find_some. unfold mit_find, mit_second.
-    destruct (assoc k (dl_index s)) as [n|] eqn:A; [|simpl; auto]. rewrite A. cbn [bind].
+    unfold g_do_find, dl_find. found k s n A; [|simpl; auto].
     callee (find_prefix s n pk now). unfold dcell_of.
     destruct (l_deref (dl_list s) (It n)) as [d|]; cbn [bind].
     - destruct (if negb pk then _ else _) as [s1|]; cbn [bind];
@@ -233,8 +237,7 @@ Section LfuBridge.
   Lemma g_do_find_with_use_count_ok (s : lfdl K V) k pk now :
     req (g_do_find_with_use_count s k pk) (dl_find_use false s k pk now).
   Proof.
-    unfold g_do_find_with_use_count, dl_find_use. rewrite mit_find_some. unfold mit_find, mit_second.
-    destruct (assoc k (dl_index s)) as [n|] eqn:A; [|simpl; auto]. rewrite A. cbn [bind].
+    unfold g_do_find_with_use_count, dl_find_use. found k s n A; [|simpl; auto].
     callee (find_prefix s n pk now). unfold dcell_of.
     destruct (l_deref (dl_list s) (It n)) as [d|]; cbn [bind].
     - destruct (if negb pk then _ else _) as [s1|]; cbn [bind];
@@ -248,8 +251,7 @@ Section LfuBridge.
 
   Lemma g_erase_ok (s : lfdl K V) k : req (g_erase s k) (dl_erase s k).
   Proof.
-    unfold g_erase, dl_erase. rewrite mit_find_some. unfold mit_find, mit_second.
-    destruct (assoc k (dl_index s)) as [n|] eqn:A; [|simpl; auto]. rewrite A. cbn [bind].
+    unfold g_erase, dl_erase. found k s n A; [|simpl; auto].
     callee (g_do_erase_ok s n). unfold bind. crush; finish.
   Qed.
 
@@ -278,9 +280,8 @@ Section LfuBridge.
     match goal with |- req (bind (foldM ?F _ _) _) _ =>
       assert (G : forall l s n, req (foldM F l (s, n)) (dl_erase_range s l n)) end.
     { clear. induction l as [|k r IH]; intros s n; simpl; auto.
-      rewrite mit_find_some. unfold dl_erase, mit_find, mit_second.
-      destruct (assoc k (dl_index s)) as [idx|] eqn:A; cbn [bind]; [|apply IH].
-      rewrite A. cbn [bind]. callee (g_do_erase_ok s idx).
+      unfold dl_erase. found k s idx A; [|apply IH].
+      callee (g_do_erase_ok s idx).
       destruct (g_do_erase s (It idx)) as [s1|], (dl_do_erase s idx) as [s2|]; simpl; intros P; try contradiction; auto.
       subst. eapply req_trans; [apply IH|]. apply req_eq; f_equal; lia. }
     specialize (G l s 0). revert G.
